@@ -18,4 +18,7 @@ CONSTANTS
   CleanSC = "sf-"
   CountRule = "sound"
   EagerCount = FALSE
+  Holds = FALSE
+  MaxTick = 0
+  TickGuard = "impl"
 CHECK_DEADLOCK FALSE
